@@ -22,8 +22,31 @@ func main() {
 	replay := flag.String("replay", "", "replay file (re-runs the property; the file names the failing constructs)")
 	dump := flag.String("dump", "", "debug: print the path table of dir:Recv.Name (e.g. http:ErrorResponse.StatusCode)")
 	loop := flag.Int("loop", 0, "debug: loop bound for -dump")
+	shareddbg := flag.Bool("shared", false, "debug: list writes to shared locations")
 	mapdbg := flag.Bool("maporder", false, "debug: list all range-over-map sites with their class")
 	flag.Parse()
+	if *shareddbg {
+		abs, _ := filepath.Abs(*repo)
+		ctx, err := an.Load(abs, "dump", "quick")
+		if err != nil {
+			fmt.Fprintln(os.Stderr, err)
+			os.Exit(2)
+		}
+		for _, d := range ctx.ModuleDirs() {
+			for _, f := range ctx.AllFuncs(d) {
+				sf := ctx.SSAFunc(f)
+				if sf == nil {
+					continue
+				}
+				for _, g := range an.AllFunctions(sf) {
+					for _, w := range an.SharedWrites(g) {
+						fmt.Printf("%-12s %s %s -> %s locked=%q atomic=%v\n", w.Kind, ctx.Position(w.Pos), an.FuncDisplayName(g), w.Target, w.Locked, w.Atomic)
+					}
+				}
+			}
+		}
+		return
+	}
 	if *mapdbg {
 		abs, _ := filepath.Abs(*repo)
 		ctx, err := an.Load(abs, "dump", "quick")
